@@ -81,15 +81,19 @@ def stage2(mdir, mid, what):
                     pass
         subprocess.run(["sed", "-i", "s#=> /repo#=> %s/repo#" % w, w + "/verif/harness/go.mod"], check=True)
         env = dict(ENV, VERIF_REPO=w + "/repo")
-        for p in order:
-            t0 = time.time()
-            rc, out = sh(["./check", p, "quick"], cwd=w + "/verif", timeout=1500, env=env)
-            tried.append(p)
-            vio = re.findall(r"^VIOLATION .*$", out, flags=re.M)
-            if vio or rc != 0:
-                with_input = any("no-failing-input-found" not in v for v in vio)
-                return {"verdict": "killed", "by": p, "with_failing_input": with_input, "tried": tried, "rc": rc,
-                        "line": (vio[0] if vio else out[-300:]).replace(w, ""), "secs": round(time.time() - t0, 1)}
+        # pass 1: correspondence and oracles only (fast: no proof module is rebuilt) - a kill here comes with a failing input;
+        # pass 2 (only for what pass 1 lets through): the full checks, where a broken proof obligation kills too
+        for skip in ("1", ""):
+            env2 = dict(env, VERIF_SKIP_PROOF="1") if skip else env
+            for p in order:
+                t0 = time.time()
+                rc, out = sh(["./check", p, "quick"], cwd=w + "/verif", timeout=1500, env=env2)
+                tried.append(p + ("" if not skip else "-corr"))
+                vio = re.findall(r"^VIOLATION .*$", out, flags=re.M)
+                if vio or rc != 0:
+                    with_input = any("no-failing-input-found" not in v for v in vio)
+                    return {"verdict": "killed", "by": p, "with_failing_input": with_input, "tried": tried, "rc": rc,
+                            "line": (vio[0] if vio else out[-300:]).replace(w, ""), "secs": round(time.time() - t0, 1)}
         return {"verdict": "SURVIVED", "tried": tried}
     finally:
         shutil.rmtree(w, ignore_errors=True)
